@@ -117,10 +117,13 @@ class Dispatcher(InstructionGenerator):
 
             return instructions
 
+        # fleets are visited in sorted order: a vehicle that belongs to several fleets receives one
+        # instruction per fleet and the last one pushed wins, so the order must not depend on set iteration
+        fleet_ids: Tuple[Optional[MembershipId], ...]
         if len(environment.fleet_ids) > 0:
-            fleet_ids = environment.fleet_ids
+            fleet_ids = tuple(sorted(environment.fleet_ids))
         else:
-            fleet_ids = frozenset([None])
+            fleet_ids = (None,)
 
         initial_instructions: Tuple[DispatchTripInstruction, ...] = tuple()
 
